@@ -1,7 +1,7 @@
 """C07 - a model is left behaviourally unchanged by every call, even one that fails."""
 import ast
 from ..front import dotted, const_value, unparse, walk_no_nested, parent_map, kwarg
-from ..core import holds, violation, unrecognised, Result, HOLDS
+from ..core import holds, violation, unrecognised, Result, HOLDS, named
 from ..typestate import ReleaseRule
 from ..rules import Must, call_matcher
 
@@ -149,6 +149,7 @@ def run(repo, tier):
 
     # ------------------------------------------------------------ R-NOGRAD / EVAL in predict
     out += nograd_eval(repo)
+    out += eval_rule(repo, "deep_lift_shap.deep_lift_shap")
     return out
 
 
@@ -413,32 +414,53 @@ def nograd_eval(repo):
             bad.append(c)
     out.append(violation("R-NOGRAD", f, role, "`%s` runs with autograd enabled" % unparse(bad[0])[:50], bad[0]) if bad else
                holds("R-NOGRAD", f, role, "%d forward call(s), all lexically inside no_grad" % len(fwd), fwd[0]))
-    # eval() dominates the forward calls
+    out += eval_rule(repo, "predict.predict")
+    return out
+
+
+def eval_rule(repo, qual):
+    """R-EVAL for a function that calls the model directly: on EVERY path `.eval()` has been applied to the model object before a forward
+    call (a conditional eval - `if model.training:`, `if <not on device>:` - leaves a path on which the children keep their mode), the
+    name `model` still denotes that object, and training mode is not switched on again before the last forward call."""
+    f = repo.func(qual)
+    out = []
+    pm = parent_map(f.node)
+    fwd = [n for n in walk_no_nested(f.node) if isinstance(n, ast.Call) and isinstance(n.func, ast.Name) and n.func.id == "model"]
     role = "model.eval() is applied to the model object before any forward call"
+    if not fwd:
+        return [unrecognised("R-EVAL", f, role, "no model(...) call in %s" % qual)]
 
     def is_eval(c):
         return isinstance(c.func, ast.Attribute) and c.func.attr == "eval" and is_model_expr(c.func.value, {"model"})
     m = Must(f, call_matcher({"eval": is_eval}))
-    pmap = pm
     bad = []
     for c in fwd:
         s = c
         while not isinstance(s, ast.stmt):
-            s = pmap[s]
+            s = pm[s]
         if "eval" not in m.before.get(id(s), frozenset()):
             bad.append(c)
     # the eval'ed object must be the one that is called: `model = model...eval()` or bare `model.eval()`
     rebinds = [n for n in walk_no_nested(f.node) if isinstance(n, ast.Assign) and any(
         isinstance(t, ast.Name) and t.id == "model" for t in n.targets)]
     lost = [r for r in rebinds if not is_model_expr(r.value, {"model"})]
+    last_fwd = max(c.lineno for c in fwd)
     trains = [n for n in walk_no_nested(f.node) if isinstance(n, ast.Call) and isinstance(n.func, ast.Attribute)
-              and n.func.attr == "train"]
-    if bad:
-        out.append(violation("R-EVAL", f, role, "forward call `%s` is not dominated by model.eval()" % unparse(bad[0])[:50], bad[0]))
+              and n.func.attr == "train" and is_model_expr(n.func.value, {"model"})]
+    early = [n for n in trains if n.lineno <= last_fwd]
+    evals = [n for n in walk_no_nested(f.node) if isinstance(n, ast.Call) and is_eval(n)]
+    if bad and evals:
+        out.append(named("R-EVAL", f, role, "forward call `%s` is reached on a path on which `%s` has not run (the eval() is conditional): "
+                         "sub-modules keep whatever mode they were in" % (unparse(bad[0])[:50], unparse(evals[0])[:40]), bad[0]))
+    elif bad:
+        out.append(named("R-EVAL", f, role, "forward call `%s` is not dominated by model.eval()" % unparse(bad[0])[:50], bad[0]))
     elif lost:
         out.append(violation("R-EVAL", f, role, "`model` is rebound to `%s`" % unparse(lost[0].value)[:50], lost[0]))
+    elif early:
+        out.append(named("R-EVAL", f, role, "`%s` (line %d) switches the training mode before the last forward call (line %d)" % (
+            unparse(early[0])[:50], early[0].lineno, last_fwd), early[0]))
     elif trains:
-        out.append(violation("R-EVAL", f, role, "`%s` re-enables training mode" % unparse(trains[0])[:50], trains[0]))
+        out.append(unrecognised("R-EVAL", f, role, "`%s` changes the training mode after the forward calls: not judged" % unparse(trains[0])[:50], trains[0]))
     else:
         out.append(holds("R-EVAL", f, role, "eval() dominates %d forward call(s)" % len(fwd), fwd[0]))
     return out
